@@ -37,20 +37,7 @@ theorem transform_total (sg : Sigma T) (fo : FloatOps F) (t : T) (f : U F)
   let w : World Empty F := { val := fun c _ => c.elim, elems := fun c _ => c.elim,
                               seekable := fun c _ => c.elim, subRows := fun c _ => c.elim,
                               nilRow := fun c => c.elim }
-  have hnn : ∀ (f : U F) (t : T), subRowsNonNil sg w t f := by
-    intro f
-    induction f with
-    | setFnSub fn n q sk li ih => intro t; exact ⟨fun c => c.elim, fun t' _ => ih t'⟩
-    | cmp op l r ih => intro t; exact ih t
-    | inArr l arr ih => intro t; exact ih t
-    | between l lo hi ih => intro t; exact ih t
-    | notE e ih => intro t; exact ih t
-    | unot e ih => intro t; exact ih t
-    | logic o l r ihl ihr => intro t; exact ⟨ihl t, ihr t⟩
-    | sym n => intro t; trivial
-    | setFn fn n => intro t; trivial
-    | boolC b => intro t; trivial
-  obtain ⟨p, hp, hb, _⟩ := (refine_main sg w fo (fun c => c.elim) f t).1 h (hnn f t)
+  obtain ⟨p, hp, hb, _⟩ := (refine_main sg w fo (fun c => c.elim) f t).1 h
   refine ⟨p, ?_⟩
   have hv := (validate_ok sg fo f t).1 h false
   unfold typeCheck
@@ -60,14 +47,12 @@ theorem transform_total (sg : Sigma T) (fo : FloatOps F) (t : T) (f : U F)
 
 /-- **Refinement (the headline theorem)**: for every well-typed filter, on every row, the typed tree
     the engine builds evaluates to exactly what the specification says — provided every seekable
-    cursor ranges over a sorted string bucket (`SeekOK`, true of every bbolt bucket of strings) and
-    no sub-query of the filter ranges over a cursor that yields a nil key (`subRowsNonNil`, see
-    `nil_row_violates`; trivially true of filters without sub-queries). -/
+    cursor ranges over a sorted string bucket (`SeekOK`, true of every bbolt bucket of strings). -/
 theorem eval_refines_sat (sg : Sigma T) (w : World C F) (fo : FloatOps F) (hw : SeekOK w)
-    (t : T) (f : U F) (h : wellTyped sg fo t f = true) (hn : subRowsNonNil sg w t f)
+    (t : T) (f : U F) (h : wellTyped sg fo t f = true)
     (p : TNode F) (hp : typeCheck sg fo t f = .ok p) (c : C) :
     evalRow w fo c p = sat sg w fo t c f := by
-  obtain ⟨p', hp', hbool, he⟩ := (refine_main sg w fo hw f t).1 h hn
+  obtain ⟨p', hp', hbool, he⟩ := (refine_main sg w fo hw f t).1 h
   have hv := (validate_ok sg fo f t).1 h false
   unfold typeCheck at hp
   cases hvv : validate sg t false f with
@@ -76,13 +61,6 @@ theorem eval_refines_sat (sg : Sigma T) (w : World C F) (fo : FloatOps F) (hw : 
     simp [hvv, asBool, hp', hbool] at hp
     subst hp
     exact he c
-
-/-- The full statement of the property at the level of one row: no hypothesis on sub-query rows.
-    It is FALSE for the code as it is (`nil_row_violates`); `eval_refines_sat` is the part that holds. -/
-def eval_refines_sat_fullStatement : Prop :=
-  ∀ (sg : Sigma Nat) (w : World Ctx Float) (fo : FloatOps Float), SeekOK w →
-    ∀ (t : Nat) (f : U Float), wellTyped sg fo t f = true →
-      ∀ p, typeCheck sg fo t f = .ok p → ∀ c, evalRow w fo c p = sat sg w fo t c f
 
 /-- **The seek shortcut never changes an answer**: positioning a cursor at the first key ≥ the
     compared string and testing only that element equals scanning the whole (sorted, duplicate free,
@@ -113,7 +91,7 @@ theorem sat_noSeek (sg : Sigma T) (w : World C F) (fo : FloatOps F) :
     intro t c
     have : ∀ t', (fun c' => sat sg (noSeek w) fo t' c' q) = (fun c' => sat sg w fo t' c' q) :=
       fun t' => funext fun c' => (ih t' c').1
-    cases fn <;> cases hst : sg.setTypes t n <;> simp [sat, lhsDen, hst, this] <;> simp [noSeek]
+    cases fn <;> cases hst : sg.setTypes t n <;> simp [sat, lhsDen, hst, this] <;> simp [noSeek, liveRows]
   | boolC b => intro t c; simp [sat, lhsDen]
   | cmp op l r ih => intro t c; simp [sat, lhsDen, (ih t c).2]
   | inArr l arr ih => intro t c; simp [sat, lhsDen, (ih t c).2]
@@ -122,38 +100,22 @@ theorem sat_noSeek (sg : Sigma T) (w : World C F) (fo : FloatOps F) :
   | unot e ih => intro t c; simp [sat, lhsDen, (ih t c).1]
   | logic o l r ihl ihr => intro t c; simp [sat, lhsDen, (ihl t c).1, (ihr t c).1]
 
-theorem subRowsNonNil_noSeek (sg : Sigma T) (w : World C F) :
-    ∀ (f : U F) (t : T), subRowsNonNil sg w t f → subRowsNonNil sg (noSeek w) t f := by
-  intro f
-  induction f with
-  | setFnSub fn n q sk li ih => intro t h; exact ⟨h.1, fun t' ht' => ih t' (h.2 t' ht')⟩
-  | cmp op l r ih => intro t h; exact ih t h
-  | inArr l arr ih => intro t h; exact ih t h
-  | between l lo hi ih => intro t h; exact ih t h
-  | notE e ih => intro t h; exact ih t h
-  | unot e ih => intro t h; exact ih t h
-  | logic o l r ihl ihr => intro t h; exact ⟨ihl t h.1, ihr t h.2⟩
-  | sym n => intro t _; trivial
-  | setFn fn n => intro t _; trivial
-  | boolC b => intro t _; trivial
-
 /-- **The answer does not depend on the shortcut**: evaluating with seekable cursors and with plain
     cursors gives the same value, for every well-typed filter on every row. -/
 theorem query_shortcut_free (sg : Sigma T) (w : World C F) (fo : FloatOps F) (hw : SeekOK w)
-    (t : T) (f : U F) (h : wellTyped sg fo t f = true) (hn : subRowsNonNil sg w t f)
+    (t : T) (f : U F) (h : wellTyped sg fo t f = true)
     (p : TNode F) (hp : typeCheck sg fo t f = .ok p) (c : C) :
     evalRow w fo c p = evalRow (noSeek w) fo c p := by
-  rw [eval_refines_sat sg w fo hw t f h hn p hp c,
-      eval_refines_sat sg (noSeek w) fo (fun c n hs => by simp [noSeek] at hs) t f h
-        (subRowsNonNil_noSeek sg w f t hn) p hp c,
+  rw [eval_refines_sat sg w fo hw t f h p hp c,
+      eval_refines_sat sg (noSeek w) fo (fun c n hs => by simp [noSeek] at hs) t f h p hp c,
       (sat_noSeek sg w fo f t c).1]
 
 /-- **Sub-query counts are exact**: the paging scanner behind `count(from s where q skip k limit m)`
-    yields exactly as many rows as "filter, drop k, take m" keeps (no row with a nil key). -/
-theorem subquery_count_exact (m nil : C → Bool) (skip limit : Option Int) (rows : List C)
-    (hn : ∀ r ∈ rows, nil r = false) :
-    scanCount m nil (pagingOffset skip) (pagingLimit limit) rows 0 0 = (paged skip limit (rows.filter m)).length :=
-  scanCount_paged m nil skip limit rows hn
+    yields exactly as many rows as "drop the null links, filter, drop k, take m" keeps. -/
+theorem subquery_count_exact (m nil : C → Bool) (skip limit : Option Int) (rows : List C) :
+    scanCount m nil (pagingOffset skip) (pagingLimit limit) rows 0 0 =
+      (paged skip limit ((rows.filter fun r => !nil r).filter m)).length :=
+  scanCount_paged m nil skip limit rows
 
 /-- **Null rules of the specification** (and hence, by `eval_refines_sat`, of the engine): with a
     null left operand and a non-null literal, a well-typed comparison — bool comparisons included —
@@ -173,7 +135,7 @@ theorem engine_null_rules (sg : Sigma T) (w : World C F) (fo : FloatOps F) (hw :
     (h : wellTyped sg fo t (.cmp op (.sym n) r) = true)
     (p : TNode F) (hp : typeCheck sg fo t (.cmp op (.sym n) r) = .ok p) (c : C) (hnil : w.val c n = .nil) :
     evalRow w fo c p = decide (op = .ne ∨ op = .ncontains ∨ op = .nicontains) := by
-  rw [eval_refines_sat sg w fo hw t _ h trivial p hp c]
+  rw [eval_refines_sat sg w fo hw t _ h p hp c]
   simp only [sat, lhsDen, LhsDen.holds, hnil]
   have hok : okCmp (symType sg t n) true op r = true := by
     simp only [wellTyped, lhsType] at h
@@ -229,7 +191,6 @@ example : SeekOK exWorld := by
   have : n = "roles" := by simpa [exWorld] using h
   subst this
   exact ⟨[[97], [98]], rfl, by decide⟩
-example : subRowsNonNil exSigma exWorld () exFilter := by simp [exFilter, subRowsNonNil]
 /-- `flag != true` holds on a row whose flag is null; `flag = false` does not (df0c801) -/
 example : sat exSigma exWorld witFo () () exFilter = true := by decide
 example : sat exSigma exWorld witFo () () (.cmp .eq (.sym "flag") (.bool false)) = false := by decide
@@ -244,22 +205,20 @@ theorem stacked_eq_flatMap (db : Db F) (chain : List Atom) (key : Option Bytes) 
 
 /-- The world the code computes (`modelWorld`) and the path semantics (`specWorld`) agree on every
     symbol: same values, same set elements; and the same sub-query rows for symbols with a plain
-    cursor whose elements are all non-null. -/
+    cursor. -/
 theorem world_refines_spec (db : Db F) (c : Ctx) (n : String) :
     (modelWorld db).elems c n = (specWorld db).elems c n ∧
     (modelWorld db).val c n = (specWorld db).val c n ∧
-    (namePlain db.defs c.1 n = true →
-      (∀ c' ∈ (modelWorld db).subRows c n, (modelWorld db).nilRow c' = false) →
-      (modelWorld db).subRows c n = (specWorld db).subRows c n) :=
+    (namePlain db.defs c.1 n = true → liveRows (modelWorld db) c n = liveRows (specWorld db) c n) :=
   world_elems_eq db c n
 
 /-- **`Store.QueryIds` returns exactly the satisfying ids**: for every database whose set buckets
     are sorted string buckets, every store, every well-typed filter whose sub-queries range over
-    plain cursors without null links: no matching entity is omitted, no non-matching entity is
-    returned. -/
+    plain cursors (`subQueriesPlain`, see `subquery_tail_violates`): no matching entity is omitted,
+    no non-matching entity is returned. -/
 theorem query_exact (db : Db F) (fo : FloatOps F) (st : Nat) (f : U F)
     (hwf : WellFormedDb db) (hwt : wellTyped (dbSigma db.defs) fo st f = true)
-    (hn : subRowsNonNil (dbSigma db.defs) (modelWorld db) st f) (hp : subQueriesPlain db.defs st f = true) :
+    (hp : subQueriesPlain db.defs st f = true) :
     query db fo st f = .ok (specQuery db fo st f) := by
   obtain ⟨p, hpp⟩ := transform_total (dbSigma db.defs) fo st f hwt
   unfold query specQuery
@@ -268,31 +227,28 @@ theorem query_exact (db : Db F) (fo : FloatOps F) (st : Nat) (f : U F)
   congr 1
   apply List.filter_congr
   intro id _
-  rw [eval_refines_sat (dbSigma db.defs) (modelWorld db) fo (modelWorld_seekOK db hwf) st f hwt hn p hpp (st, some id)]
-  exact (sat_world_eq db fo f st (st, some id) rfl hp hn).1
+  rw [eval_refines_sat (dbSigma db.defs) (modelWorld db) fo (modelWorld_seekOK db hwf) st f hwt p hpp (st, some id)]
+  exact (sat_world_eq db fo f st (st, some id) rfl hp).1
 
-/-- Filters without sub-queries need neither of the two sub-query hypotheses: comparisons,
+/-- Filters without sub-queries need no further hypothesis: comparisons,
     in / between, connectives, anyOf / allOf / count / isEmpty over direct sets, dotted symbols of any
     depth and map elements are exact on every well-formed database. -/
 theorem query_exact_no_subquery (db : Db F) (fo : FloatOps F) (st : Nat) (f : U F)
     (hwf : WellFormedDb db) (hwt : wellTyped (dbSigma db.defs) fo st f = true)
     (hs : noSubQuery f = true) :
     query db fo st f = .ok (specQuery db fo st f) :=
-  query_exact db fo st f hwf hwt (subRowsNonNil_of_noSubQuery _ _ f st hs)
-    (subQueriesPlain_of_noSubQuery db.defs f st hs)
+  query_exact db fo st f hwf hwt (subQueriesPlain_of_noSubQuery db.defs f st hs)
 
 /-- The full statement for queries (no hypothesis on sub-queries).  FALSE for the code as it is:
-    `nil_row_violates`, `subquery_tail_violates`. -/
+    `subquery_tail_violates`. -/
 def query_exact_fullStatement : Prop :=
   ∀ (db : Db Float) (fo : FloatOps Float) (st : Nat) (f : U Float), WellFormedDb db →
     wellTyped (dbSpecSigma db.defs) fo st f = true → query db fo st f = .ok (specQuery db fo st f)
 
-/-! ### known deviation 1: a null link inside the dotted set symbol of a sub-query
+/-! ### a null link inside the dotted set symbol of a sub-query is no row (38978b1)
 
   `count(from members.owner where true)`: the stacked cursor yields one element per member, a nil key
-  for a member without owner.  `uniqueIndexScanner.Next` stores `cursor.Current()` (nil) as its
-  current row; when that row matches the inner filter the scanner reports `IsValid() == false` and
-  the counting loop stops — the remaining owners are never counted. -/
+  for a member without owner; the scanner skips it and counts the remaining owners. -/
 
 def nilDb : Db Float where
   defs := [{ syms := [("id", .id), ("owner", .field .str (some 1))], maps := [] },
@@ -304,13 +260,11 @@ def nilDb : Db Float where
 /-- `count(from members.owner where true) = 1`, asked of the owners -/
 def nilFilter : U Float := .cmp .eq (.setFnSub .count "members.owner" (.boolC true) none none) (.int 1)
 
-theorem nil_row_violates :
-    wellTyped (dbSpecSigma nilDb.defs) witFo 1 nilFilter = true ∧
-    specQuery nilDb witFo 1 nilFilter = [[98, 49]] ∧
-    query nilDb witFo 1 nilFilter = .ok [] := by
-  refine ⟨by decide, by decide, by decide⟩
+example : (modelWorld nilDb).subRows (1, some [98, 49]) "members.owner" = [(1, none), (1, some [98, 49])] := by decide
+example : specQuery nilDb witFo 1 nilFilter = [[98, 49]] := by decide
+example : query nilDb witFo 1 nilFilter = .ok [[98, 49]] := by decide
 
-/-! ### known deviation 2: a sub-query over a set followed by two or more links
+/-! ### known deviation: a sub-query over a set followed by two or more links
 
   For `from groups.boss.boss where …` `createCompositeEntitySymbol` builds a compositeEntitySetSymbol
   whose iterable chain is `groups` alone; `OpenSetCursorForQuery` scans the cursor's keys — the groups —
@@ -352,20 +306,20 @@ theorem wellFormed_of_sets (db : Db Float)
 
 theorem query_exact_full_fails : ¬ query_exact_fullStatement := by
   intro h
-  have hwf : WellFormedDb nilDb := by
+  have hwf : WellFormedDb tailDb := by
     apply wellFormed_of_sets
     intro rows hrows e he p hp
-    simp only [nilDb, List.mem_cons, List.mem_nil_iff, or_false] at hrows
+    simp only [tailDb, List.mem_cons, List.mem_nil_iff, or_false] at hrows
     rcases hrows with rfl | rfl
-    · simp only [List.mem_cons, List.mem_nil_iff, or_false] at he
-      rcases he with rfl | rfl <;> simp at hp
     · simp only [List.mem_cons, List.mem_nil_iff, or_false] at he
       subst he
       simp only [List.mem_cons, List.mem_nil_iff, or_false] at hp
       subst hp
-      exact ⟨[[97, 49], [97, 50]], rfl, by decide⟩
-  have := h nilDb witFo 1 nilFilter hwf nil_row_violates.1
-  rw [nil_row_violates.2.2, nil_row_violates.2.1] at this
+      exact ⟨[[98, 49]], rfl, by decide⟩
+    · simp only [List.mem_cons, List.mem_nil_iff, or_false] at he
+      rcases he with rfl | rfl | rfl <;> simp at hp
+  have := h tailDb witFo 0 tailFilter hwf subquery_tail_violates.1
+  rw [subquery_tail_violates.2.2, subquery_tail_violates.2.1] at this
   exact absurd this (by decide)
 
 /-- non-vacuity of the hypotheses of `query_exact`: two linked stores, three rows, a filter that
@@ -403,18 +357,7 @@ theorem exDb_wellFormed : WellFormedDb exDb := by
        · exact ⟨[[98, 49]], rfl, by decide⟩)
     | (subst hp; exact ⟨[[97, 49], [97, 50]], rfl, by decide⟩)
 
-example : subRowsNonNil (dbSigma exDb.defs) (modelWorld exDb) 0 exDbFilter := by
-  simp only [exDbFilter, subRowsNonNil]
-  refine ⟨trivial, trivial, trivial, ⟨?_, fun _ _ => trivial⟩⟩
-  apply directSet_rows_nonNil exDb exDb_wellFormed "groups"
-  intro t
-  have : t = 0 ∨ t = 1 ∨ t ≥ 2 := by omega
-  rcases this with rfl | rfl | h2
-  · have : resolve exDb.defs 0 (splitName "groups") = some (.atom (.set 0 "groups" .str (some 1))) := by decide
-    rw [this]; trivial
-  · have : resolve exDb.defs 1 (splitName "groups") = none := by decide
-    rw [this]; trivial
-  · rw [resolve_out_of_range exDb.defs t (by simp [exDb]; omega)]; trivial
+example : WellFormedDb exDb := exDb_wellFormed
 example : query exDb witFo 0 exDbFilter = .ok [[97, 49]] := by decide
 example : specQuery exDb witFo 0 exDbFilter = [[97, 49]] := by decide
 
@@ -433,6 +376,5 @@ end StorageModel.Properties.C01
 #print axioms StorageModel.Properties.C01.world_refines_spec
 #print axioms StorageModel.Properties.C01.query_exact
 #print axioms StorageModel.Properties.C01.query_exact_no_subquery
-#print axioms StorageModel.Properties.C01.nil_row_violates
 #print axioms StorageModel.Properties.C01.subquery_tail_violates
 #print axioms StorageModel.Properties.C01.query_exact_full_fails
